@@ -447,9 +447,18 @@ func (w *wWorld) c13Expand(raw string, ss *wSess, id string) string {
 type c13Obs struct {
 	deep     int
 	requests int
+	authed   map[int]bool // session slot -> was authenticated (server side) before the step
 }
 
-func (o *c13Obs) Before(w *wWorld, op *wOp) {}
+func (o *c13Obs) Before(w *wWorld, op *wOp) {
+	// Hostile {login}/{acc login=true} messages may authenticate a session at any time.
+	o.authed = map[int]bool{}
+	for slot, ss := range w.sess {
+		if ss != nil && !ss.isClosed() {
+			o.authed[slot] = !ss.s.uid.IsZero()
+		}
+	}
+}
 
 func (o *c13Obs) After(w *wWorld, st *wStep) *kit.Viol {
 	if st.Op.K != "raw" || st.Skipped {
@@ -548,14 +557,14 @@ func (o *c13Obs) After(w *wWorld, st *wStep) *kit.Viol {
 	if !answered && !terminated {
 		return kit.V("unanswered:"+c13Shape(kind, st.Req), "request got no reply echoing its id %q at quiescence: %s (session user %d) frames=%s", id, st.Req, ss.user, wFramesStr(frames))
 	}
-	if ss.user < 0 && kind != "hi" && kind != "acc" && kind != "login" {
+	if !o.authed[st.Sess] && kind != "hi" && kind != "acc" && kind != "login" {
 		for _, c := range codes {
 			if c < 400 {
 				return kit.V("unauthenticated-accepted:"+kind, "request from a session that is not logged in was answered %d: %s", c, st.Req)
 			}
 		}
 	}
-	if ss.user >= 0 && kind != "hi" && kind != "acc" && kind != "login" {
+	if o.authed[st.Sess] && kind != "hi" && kind != "acc" && kind != "login" {
 		o.deep++
 	}
 	return nil
